@@ -93,6 +93,18 @@ func splitGen(rng *Rng, k, s int, incidence uint32) splitProject {
 			b.WriteString(fmt.Sprintf("export * from \"./mid%d.mjs\";\n", i))
 			files[fmt.Sprintf("/mid%d.mjs", i)] = fmt.Sprintf("export {v%d as viaMid%d, inc%d as incViaMid%d} from \"./s%d.mjs\";\nexport const mid%d = \"mid%d\";\n$(\"mid%d\", \"run\");\n", j, i, j, i, j, i, i, i)
 		}
+		// a shared module re-exported wholesale by the entry, next to entry-local bindings (not exported) that carry
+		// the very names the star re-export provides: the import from the other chunk and the local must both keep working
+		if rng.Intn(3) == 0 {
+			for j := 0; j < s; j++ {
+				if incidence&(1<<uint(i*s+j)) != 0 {
+					desc = append(desc, fmt.Sprintf("e%d-*->s%d+locals", i, j))
+					b.WriteString(fmt.Sprintf("export * from \"./s%d.mjs\";\n", j))
+					body.WriteString(fmt.Sprintf("let x = \"local-x-of-e%d\"; var x2 = \"local-x2-of-e%d\"; function x3() { return \"local-x3-of-e%d\"; }\n$(\"e%d\", \"locals-vs-star\", x, x2, x3());\n", i, i, i, i))
+					break
+				}
+			}
+		}
 		b.WriteString(fmt.Sprintf("$(\"e%d\", \"start\");\n", i))
 		b.WriteString(fmt.Sprintf("function helper() { return \"helper-of-e%d\"; }\nconst tmp = helper();\nexport const id%d = tmp;\nexport let state%d = 0;\nexport function bump%d() { return ++state%d; }\n", i, i, i, i, i))
 		b.WriteString(body.String())
@@ -170,6 +182,7 @@ func checkC10(r *Run) {
 		"non-trivial = distinct (project, load order) executed both ways")
 	r.Assume("the relative order of different modules' top-level code is not compared (documented limitation): traces are projected per module")
 	pool := r.Pool()
+	c10Twins(r)
 	scratch, _ := os.MkdirTemp("/tmp", "verif-c10-")
 	defer os.RemoveAll(scratch)
 	nproj := r.pick(90, 1800)
@@ -428,4 +441,71 @@ func findCycle(edges map[string][]string) string {
 		}
 	}
 	return found
+}
+
+// c10Twins: two library modules with byte-identical text in different directories, each shared by its own pair of
+// entry points, under chunk-name templates without [hash]. The two shared chunks then want the same output path:
+// esbuild either refuses the build or keeps them apart — what it must never do is emit one of them for both groups
+// (each module body runs exactly once and owns its own state). Loaded natively and from the emitted files in one runtime.
+func c10Twins(r *Run) {
+	scratch, _ := os.MkdirTemp("/tmp", "verif-c10t-")
+	defer os.RemoveAll(scratch)
+	lib := "$(\"lib\", \"start\");\nlet n = 0;\nexport function next() { return ++n; }\n"
+	files := map[string]string{"/g1/util.mjs": lib, "/g2/util.mjs": lib}
+	var entries []string
+	for i, g := range []string{"g1", "g1", "g2", "g2"} {
+		name := fmt.Sprintf("/t%d.mjs", i)
+		files[name] = fmt.Sprintf("import {next} from \"./%s/util.mjs\";\n$(\"t%d\", next());\nexport const id = %d;\n", g, i, i)
+		entries = append(entries, name)
+	}
+	refused, ran := 0, 0
+	for vi, tpl := range []string{"[name]", "shared/[name]", "[name]-[hash]", ""} {
+		for _, minify := range []bool{true, false} {
+			dir := filepath.Join(scratch, fmt.Sprint("v", vi, minify))
+			src := filepath.Join(dir, "src")
+			if writeTree(src, files) != nil {
+				continue
+			}
+			var eps, nf []string
+			for _, e := range entries {
+				eps = append(eps, filepath.Join(src, e))
+				nf = append(nf, filepath.Join(src, e))
+			}
+			res, pan := buildSafe(api.BuildOptions{EntryPoints: eps, Bundle: true, Splitting: true, Format: api.FormatESModule, Outdir: filepath.Join(dir, "out"), Write: false, AbsWorkingDir: src,
+				MinifyWhitespace: minify, MinifyIdentifiers: minify, MinifySyntax: minify, ChunkNames: tpl, OutExtension: map[string]string{".js": ".mjs"}, Platform: api.PlatformNode, LogLevel: api.LogLevelSilent})
+			r.Eval(1)
+			if pan != "" {
+				continue
+			}
+			if len(res.Errors) > 0 {
+				refused++
+				continue
+			}
+			var of []string
+			for _, f := range res.OutputFiles {
+				os.MkdirAll(filepath.Dir(f.Path), 0o755)
+				os.WriteFile(f.Path, f.Contents, 0o644)
+			}
+			for i := range entries {
+				of = append(of, filepath.Join(dir, "out", fmt.Sprintf("t%d.mjs", i)))
+			}
+			nres, err := runNodeJobs(dir, []nodeJob{{ID: "n", Mode: "import-seq", Files: nf}, {ID: "s", Mode: "import-seq", Files: of}})
+			if err != nil {
+				r.Count("node_runner_errors", 1)
+				continue
+			}
+			ran++
+			r.Nontrivial(fmt.Sprint("twins", tpl, minify))
+			a, b := nres["n"], nres["s"]
+			if strings.Join(a.Trace, " ") != strings.Join(b.Trace, " ") || a.Term != b.Term {
+				r.Violation("split:identical-modules-merged", fmt.Sprintf("two textually identical shared modules (chunk-names=%q, minify=%v): native %v, split bundle %v (%s)", tpl, minify, a.Trace, b.Trace, b.Term),
+					map[string]interface{}{"files": files, "chunk_names": tpl, "minify": minify, "native": a.Trace, "bundle": b.Trace})
+			}
+		}
+	}
+	r.Count("twin_module_builds_refused", refused)
+	r.Count("twin_module_builds_run", ran)
+	if ran == 0 {
+		r.Inconclusive("no twin-module build could be run")
+	}
 }
